@@ -89,6 +89,8 @@ struct LoopContext {
     continue_jumps: Vec<JumpPlaceholder>,
     /// Try depth when this loop started (for finally handling)
     try_depth: usize,
+    /// Block-scope depth at the continue target (known once the target is set)
+    continue_scope_depth: usize,
     /// Iterator register for for-of loops (for iterator close protocol)
     /// When set, break/return/throw should call iterator.return()
     iterator_reg: Option<Register>,
@@ -252,6 +254,7 @@ impl Compiler {
             continue_target: None,
             continue_jumps: Vec::new(),
             try_depth: self.try_depth,
+            continue_scope_depth: 0,
             iterator_reg,
         });
     }
@@ -271,8 +274,12 @@ impl Compiler {
 
         // Start from the current (innermost) context and work backwards
         // Set continue target for the current loop
+        // The continue target is the current emission point, so the current block-scope
+        // depth is the depth a `continue` has to unwind to.
+        let scope_depth = self.builder.scope_depth();
         if let Some(ctx) = self.loop_stack.get_mut(len - 1) {
             ctx.continue_target = Some(target);
+            ctx.continue_scope_depth = scope_depth;
             all_pending_jumps.append(&mut ctx.continue_jumps);
         }
 
@@ -283,6 +290,7 @@ impl Compiler {
                 // Only propagate if this is a labeled context and it doesn't have a continue target
                 if ctx.label.is_some() && ctx.continue_target.is_none() {
                     ctx.continue_target = Some(target);
+                    ctx.continue_scope_depth = scope_depth;
                     all_pending_jumps.append(&mut ctx.continue_jumps);
                 } else {
                     // Stop propagating if we hit a context that's not a label wrapper
@@ -359,9 +367,11 @@ impl Compiler {
         }
 
         // Emit Break opcode with placeholder target
+        // target and scope_depth are patched when the loop ends (pop_loop)
         let idx = self.builder.emit(Op::Break {
             target: 0,
             try_depth: target_try_depth,
+            scope_depth: 0,
         });
         let jump = JumpPlaceholder {
             instruction_index: idx,
@@ -400,15 +410,18 @@ impl Compiler {
         if let Some(ctx) = self.loop_stack.get_mut(loop_idx) {
             if let Some(target) = ctx.continue_target {
                 // Target is known, emit Continue with known target
+                let scope_depth = ctx.continue_scope_depth.min(u8::MAX as usize) as u8;
                 self.builder.emit(Op::Continue {
                     target: target as u32,
                     try_depth: target_try_depth,
+                    scope_depth,
                 });
             } else {
-                // Target not yet known, save placeholder
+                // Target not yet known, save placeholder (patched by set_continue_target)
                 let idx = self.builder.emit(Op::Continue {
                     target: 0,
                     try_depth: target_try_depth,
+                    scope_depth: 0,
                 });
                 let jump = JumpPlaceholder {
                     instruction_index: idx,
